@@ -311,29 +311,33 @@ impl From<bool> for LiteralKind {
     }
 }
 
+/// Prints a string as a double-quoted string literal, escaping everything that cannot appear
+/// verbatim in it, so that the printed source parses back to the same string.
+pub(crate) fn quote_js_string(units: &[u16]) -> String {
+    let mut buf = String::from("\"");
+    for result in char::decode_utf16(units.iter().copied()) {
+        match result {
+            Ok('"') => buf.push_str("\\\""),
+            Ok('\\') => buf.push_str("\\\\"),
+            Ok('\n') => buf.push_str("\\n"),
+            Ok('\r') => buf.push_str("\\r"),
+            Ok(c) if c < ' ' || c == '\u{2028}' || c == '\u{2029}' => {
+                buf.push_str(&format!("\\u{:04X}", c as u32));
+            }
+            Ok(c) => buf.push(c),
+            Err(e) => buf.push_str(&format!("\\u{:04X}", e.unpaired_surrogate())),
+        }
+    }
+    buf.push('"');
+    buf
+}
+
 impl ToInternedString for LiteralKind {
     #[inline]
     fn to_interned_string(&self, interner: &Interner) -> String {
         match *self {
             Self::String(st) => {
-                // Escape everything that cannot appear verbatim in a double-quoted string
-                // literal, so that the printed source parses back to the same string.
-                let mut buf = String::from("\"");
-                for result in char::decode_utf16(interner.resolve_expect(st).utf16().iter().copied()) {
-                    match result {
-                        Ok('"') => buf.push_str("\\\""),
-                        Ok('\\') => buf.push_str("\\\\"),
-                        Ok('\n') => buf.push_str("\\n"),
-                        Ok('\r') => buf.push_str("\\r"),
-                        Ok(c) if c < ' ' || c == '\u{2028}' || c == '\u{2029}' => {
-                            buf.push_str(&format!("\\u{:04X}", c as u32));
-                        }
-                        Ok(c) => buf.push(c),
-                        Err(e) => buf.push_str(&format!("\\u{:04X}", e.unpaired_surrogate())),
-                    }
-                }
-                buf.push('"');
-                buf
+                quote_js_string(interner.resolve_expect(st).utf16())
             }
             Self::Num(num) => num.to_string(),
             Self::Int(num) => num.to_string(),
